@@ -84,11 +84,6 @@ func (prop) Run(t *testing.T, s *sim.Sim, res *runner.Result) {
 				}
 			}
 			w.Store.OnLog = append(w.Store.OnLog, st.onLog)
-			w.OnClaimDone = func(key types.NamespacedName, tk *sim.Task, startSeq int, _ reconcile.Result, err error) {
-				if err == nil && tk.Normal && len(tk.FaultSteps) == 0 {
-					st.judgeClaimStillReady(key, tk, startSeq)
-				}
-			}
 		},
 		Env: func(w *xrworld.W, wl *xrworld.Workload) []sim.Action {
 			var acts []sim.Action
@@ -125,41 +120,6 @@ func (prop) Run(t *testing.T, s *sim.Sim, res *runner.Result) {
 			}
 		},
 	})
-}
-
-// judgeClaimStillReady: a claim reconcile that ran to the end without a fault
-// and left the claim Ready=True (also when it already was) observed the XR
-// Ready=True - the XR as this reconcile last saw it: its last read, or the
-// answer to its own last write.
-func (st *state) judgeClaimStillReady(key types.NamespacedName, tk *sim.Task, startSeq int) {
-	w := st.w
-	var cm, xr map[string]any
-	for _, l := range w.Store.Log[startSeq:] {
-		if l.TaskID != tk.ID || l.Injected != "" || l.Err != nil || l.DryRun || l.After == nil {
-			continue
-		}
-		if l.Key.Kind == xrworld.ClaimGVK.Kind && l.Key.Group == xrworld.ClaimGVK.Group && !l.Read && (l.Verb == "update-status" || l.Verb == "patch-status" || l.Verb == "apply-status") {
-			cm = l.After
-		}
-		if l.Key.Kind == xrworld.XRGVK.Kind && l.Key.Group == xrworld.XRGVK.Group {
-			xr = l.After
-		}
-	}
-	if cm == nil || !condTrue(cm, "Ready") || (&unstructured.Unstructured{Object: cm}).GetDeletionTimestamp() != nil {
-		return
-	}
-	if c := cond(cm, "Ready"); c == nil || c["reason"] != "Available" {
-		return
-	}
-	// (the claim reconciler reports its errors in the Synced condition and returns
-	// none: only a reconcile that left Synced=True got as far as judging readiness)
-	if !condTrue(cm, "Synced") {
-		return
-	}
-	w.S.Probe("claim-left-ready-judged")
-	if xr == nil || !condTrue(xr, "Ready") {
-		w.S.Violate("C05/claim-ready-without-ready-xr", fmt.Sprintf("claim %s was left Ready=True by a reconcile that ran to the end and did not observe its XR Ready=True", key))
-	}
 }
 
 // templateID: a template's name, or for an anonymous template its content (the
@@ -586,3 +546,4 @@ func (st *state) onLog(e *simapi.LogEntry) {
 		w.S.Violate("C05/claim-ready-without-ready-xr", fmt.Sprintf("claim %s was reported Ready=True by a reconcile that did not observe its XR Ready=True", ck))
 	}
 }
+
